@@ -65,7 +65,9 @@ def unambiguous_type(model, t):
     if k == 'seq':
         return unambiguous_type(model, t[2])
     if k == 'map':
-        return t[2] in (('str',),) and unambiguous_type(model, t[3])
+        key_ok = t[2] == ('str',) or (t[2][0] == 'cls' and model.by_name_spec[t[2][1]]['kind']
+                                      in ('str', 'userstring', 'yatimlstring'))
+        return key_ok and unambiguous_type(model, t[3])
     if k == 'any':
         return False
     return True
@@ -108,6 +110,14 @@ def explore(ctx):
             if not cands:
                 continue
             t = rng.choice(cands)
+            strlike = [c['name'] for c in spec if c['kind'] in ('str', 'userstring', 'yatimlstring')
+                       and not c.get('init_raises')]
+            if strlike and rng.random() < 0.4:
+                # string-like keys, in several mappings (so that a key object can be shared)
+                t = ('seq', 'list', ('map', 'dict', ('cls', rng.choice(strlike)),
+                                     rng.choice([('int',), ('str',), ('seq', 'list', ('float',)), t])))
+                if not unambiguous_type(model, t):
+                    continue
             v = D.gen_value(rng, model, t)
             dumps = yatiml.dumps_function(*model.registered)
             load = yatiml.load_function(model.py_type(t), *model.registered)
@@ -119,6 +129,9 @@ def explore(ctx):
             continue
         # optionally share a sub-object (dumped through an anchor)
         shared = False
+        if rng.random() < 0.5 and share_keys(rng, v, model):
+            shared = True
+            ctx.count('with_shared_key_object')
         if isinstance(v, list) and len(v) >= 1 and isinstance(v[0], (list, dict)) and rng.random() < 0.5:
             v = v + [v[0]]
             shared = True
@@ -146,6 +159,47 @@ def explore(ctx):
                 'raises ' + err if err else 'gives {!r}'.format(back), v)[:500],
                 dict(desc, key='roundtrip:' + first_difference(v, back, model, text)[:80], text=text[:800],
                      loaded=repr(back)[:600], error=err))
+
+
+def all_dicts(v, acc, seen):
+    if id(v) in seen:
+        return
+    seen.add(id(v))
+    if isinstance(v, dict):
+        acc.append(v)
+        for x in v.values():
+            all_dicts(x, acc, seen)
+    elif isinstance(v, (list, tuple)):
+        for x in v:
+            all_dicts(x, acc, seen)
+    elif hasattr(v, '__dict__') and not isinstance(v, type):
+        for x in vars(v).values():
+            all_dicts(x, acc, seen)
+
+
+def share_keys(rng, v, model):
+    """make two dicts use the very same string-like object as a key (PyYAML then writes an anchor on a key)"""
+    from collections import UserString
+    dicts = []
+    all_dicts(v, dicts, set())
+    cands = []
+    for i, d in enumerate(dicts):
+        for k in d:
+            if isinstance(k, (UserString,)) or (isinstance(k, str) and type(k) is not str):
+                cands.append((i, k))
+    rng.shuffle(cands)
+    for i, k in cands:
+        for j, d2 in enumerate(dicts):
+            if j == i or not d2:
+                continue
+            k2 = next(iter(d2))
+            if type(k2) is type(k) and k2 is not k and k not in d2:
+                items = list(d2.items())
+                d2.clear()
+                for kk, vv in items:
+                    d2[k if kk is k2 else kk] = vv
+                return True
+    return False
 
 
 def equal_modulo_nan(a, b, model):
